@@ -1,9 +1,11 @@
 import Driver.Proto
 import Driver.C16
+import Driver.C16Lin
 import Driver.C16Mon
 
 def suites : List (String × Driver.Suite) :=
   Driver.C16.suites ++
+  Driver.C16Lin.suites ++
   Driver.C16Mon.suites
 
 def main (args : List String) : IO UInt32 := do
